@@ -24,7 +24,7 @@ ANCHORS = ['penman._parse:_parse_node', 'penman._parse:_parse_edge', 'penman._pa
            'penman._lexer:TokenIterator.peek', 'penman._lexer:TokenIterator.error']
 PROBES = {'C07': 0, 'C08': 40}     # the driver itself decides C07 on every string
 MIN_EVAL = {'quick': 20000, 'thorough': 400000}
-REQUIRED_COUNTERS = ['accepted', 'rejected', 'deep_ok', 'prefixes']
+REQUIRED_COUNTERS = ['accepted', 'rejected', 'deep_ok', 'prefixes', 'long_texts']
 ASSUMPTIONS = ['the reference recogniser (pmon/ref/lexer.py) reads docs/notation.rst correctly',
                'regular-expression time inside the lexer is only guarded by the wall-clock watchdog']
 
@@ -81,6 +81,9 @@ def cases(ctx):
         if not ctx.time_left():
             break
         yield 'prefixes', {'i': i}
+    # ---- long flat texts (hundreds of tokens on few nesting levels) and their truncations
+    for i in range(12 if q else 150):
+        yield 'long', {'i': i}
     # ---- random
     n = 1500 if q else 20000
     for i in range(n):
@@ -121,6 +124,23 @@ def oracle(ctx, kind, p):
                                                  monitors.stack_depth())
         ctx.notes['recursion_limit_during_code_under_test'] = sys.getrecursionlimit()
         ctx.count('accepted' if acc else 'rejected')
+    elif kind == 'long':
+        rng = ctx.rng('long', p['i'])
+        nb = rng.choice([20, 21, 31, 32, 33, 63, 64, 65, 100, 127, 128, 129, 200])
+        parts = ['(h / hub']
+        for k in range(nb):
+            parts.append(rng.choice([f':op{k + 1} c{k}', f':ARG{k % 10} (n{k} / k{k})', f':mod~e.{k} "s {k}"~e.{k},{k + 1}',
+                                     f':r{k}', f':x-of (m{k} :y h)']))
+        s = rng.choice([' ', '\n   ', '\t']).join(parts) + ')'
+        if p['i'] % 3 == 1:
+            s = s[:rng.randrange(len(s) // 2, len(s))]
+        elif p['i'] % 3 == 2:
+            s = s + '\n\n' + s + ' ' + s
+        ctx.current = ['str', {'s': s}]
+        acc = _text.check_parsers(ctx, s, budget=True, containers=True)
+        ctx.case(s, True)
+        ctx.count('accepted' if acc else 'rejected')
+        ctx.count('long_texts')
     elif kind == 'prefixes':
         rng = ctx.rng('prefixes', p['i'])
         import penman
